@@ -5,6 +5,7 @@
 //!   tsgv gen <dir> <queries.json> <n> <seed> <out>     random cases (unprepared)
 //!   tsgv run <dir> <in.ndjson> <out.ndjson> [layout-seed]   prepare + execute cases with hooks on
 
+mod api;
 mod cases;
 mod exec;
 mod gen;
@@ -128,6 +129,20 @@ fn main() {
             }
             write_ndjson(&args[4], &items);
             println!("{} cases, {} executed", items.len(), n_run);
+        }
+        "stdlib" => {
+            // tsgv stdlib <dir> <calls.ndjson> <out.ndjson>: one real standard-library call per line
+            exec::silence_panics();
+            let srcs = cases::load_sources(&args[2]);
+            let mut items = read_ndjson(&args[3]);
+            let node_lists: Vec<Vec<tree_sitter::Node>> = srcs.iter().map(|s| s.nodes()).collect();
+            for it in items.iter_mut() {
+                let si = it["src"].as_u64().unwrap_or(1) as usize - 1;
+                let r = api::stdlib_call(it, &srcs[si], &node_lists[si]);
+                it["real"] = r;
+            }
+            write_ndjson(&args[4], &items);
+            println!("{} calls", items.len());
         }
         "retabs" => {
             // tsgv retabs <pool.json> <out.json>: tables of every (regex, subject) of a pool (oracle: regex crate)
